@@ -49,7 +49,7 @@ ASSUMPTIONS = [
 ]
 REQUIRED_CLASSES = {
     "all": ["structure=free", "structure=adjoint_pair", "structure=hermitian_square", "structure=sandwich",
-            "structure=recurrence", "hermitian_flag", "identity-in-hermitian-product", "mode=scalar", "mode=complex", "n_inf=3", "factors=4", "predeclared"]
+            "structure=recurrence", "recurrence-lazy-zeroth-order", "hermitian_flag", "identity-in-hermitian-product", "mode=scalar", "mode=complex", "n_inf=3", "factors=4", "predeclared"]
 }
 
 
@@ -388,6 +388,16 @@ def check_case(case, enforce_all=False):
                 if not partners:
                     out.fail("stray-evaluation", f"request {list(idx)} evaluated factor {t} at {list(fidx)} (foreign row/column)")
                     return out
+                if sum(n) > 0 and tuple(fidx[2:]) == tuple(n) and all(F.value(pt, pidx) is None for pt, pidx in partners):
+                    # documented (product_by_order): "Only queries the highest order of a series if the other series has
+                    # some 0th order terms. This is needed to support recurrent definitions."  The partner of a
+                    # full-order element is the zeroth-order element of the other factor; here it is absent - whether
+                    # pre-declared or a zero that its eval returns
+                    out.fail(
+                        "highest-order-without-zeroth-partner",
+                        f"request {list(idx)} evaluated factor {t} at its full order {list(fidx)} although the zeroth-order partner element(s) of the other factor vanish",
+                    )
+                    return out
                 if all(F.predeclared_zero(pt, pidx) for pt, pidx in partners):
                     out.fail(
                         "needless-evaluation",
@@ -457,6 +467,8 @@ def _check_recurrence(case, out, F, kwargs, scalar, enforce_all):
     def ev(*index):
         idx = tuple(int(q) for q in index)
         evals.append(idx)
+        if sum(idx[2:]) == 0:
+            return zero  # lazy variant: the vanishing zeroth order is only known once it has been evaluated
         a = A(idx)
         pr = holder["prod"][idx]
         v = zero if a is None else a
@@ -465,6 +477,9 @@ def _check_recurrence(case, out, F, kwargs, scalar, enforce_all):
         return v
 
     data = {(i, j) + zero_order: zero for i in range(p) for j in range(p)}
+    if not case["predeclare"][0]:
+        data = {}
+        out.labels.append("recurrence-lazy-zeroth-order")
     S = BlockSeries(eval=ev, data=data, shape=(p, p), n_infinite=n_inf, name="S")
     holder["prod"] = cauchy_dot_product(S, S, hermitian=case["hermitian_flag"], **kwargs)
     for req in case["requests"]:
